@@ -249,7 +249,23 @@ def objective_ld(x):
     return np.longdouble(np.sum(x ** 2) + 1.0) * LD_FACTOR
 
 
+def hand_built(tag, sbo):
+    """histories that no task produced: nothing dumped yet, only keys of the user's own, one record of each standard key"""
+    h = History(store_best_only=sbo)
+    if tag == 'custom-keys-only':
+        h.dump(loss=0.5, step=3)
+        h.dump(loss=0.25, step=4)
+    elif tag == 'one-record':
+        a = Agent(n_variables=2, n_dimensions=1)
+        a.position = np.array([[1.5], [-2.0]])
+        a.fit = 3.25
+        h.dump(agents=[a], best_agent=a, note=1.0)
+    return h
+
+
 def make_run(name, sbo, size, seed, ld=False):
+    if name.startswith('hand:'):
+        return hand_built(name[5:], sbo)
     np.random.seed(seed)
     mod = importlib.import_module('opytimizer.optimizers.' + name)
     cls = getattr(mod, name.upper())
@@ -362,6 +378,15 @@ def run_cases(r, quick):
                 run['hist'] = run['saveload']['before']
                 run['unknown'] = E.unknown
                 runs.append(run)
+    for tag in ('empty', 'custom-keys-only', 'one-record'):
+        for sbo in (False, True):
+            E = Enc()
+            h = hand_built(tag, sbo)
+            run = {'optimizer': 'hand:' + tag, 'sbo': sbo, 'size': [0, 0, 0], 'seed': 0, 'ld': False, 'gets': []}
+            run['saveload'] = saveload_check(h, 'hand_%s_%d' % (tag.replace('-', '_'), int(sbo)), E)
+            run['hist'] = run['saveload']['before']
+            run['unknown'] = E.unknown
+            runs.append(run)
     return runs, skipped
 
 
